@@ -90,7 +90,7 @@ theorem C14_pending_notifier_persists (σ : St) (x inp a b : Nat) (hw : σ.wait 
     ((stepRun σ x inp).2.th x).pc.pendF = true :=
   pendF_step σ x inp a b hw hp hn
 
-/-- C14 (senders are woken before a futures receiver waits — F7, F17): when an attempt of the blocking `recv` or of
+/-- C14 (senders are woken before a futures receiver waits — F8a, F8b, F17): when an attempt of the blocking `recv` or of
 the shared-stream `poll` of a futures receiver ends with `Empty`, the next thing the thread does is `notify_all` on
 the senders' list (`nf true 12`); only then does it examine the slot to wait on (`w0`). The failed attempt may have
 pinned and released a slot that a sender found pinned. -/
@@ -134,7 +134,7 @@ set_option maxHeartbeats 4000000 in
 receive attempt (`try_recv`, blocking `recv`, shared-stream `poll`) on a futures handle either stays inside the
 attempt or moves to the step that locks the senders' list and wakes every parked sender (`nf true _`) — it never
 goes on to wait or to return directly. The one exception is `poll` returning `None` (`Disconnected`: no sender
-handle is left, see C07). This is what F7 and F17 violated. -/
+handle is left, see C07). This is what F8a, F8b and F17 violated. -/
 theorem C14_attempt_exits_through_notify (σ : St) (t inp : Nat) (hf : (σ.hs (σ.th t).g).fut = true)
     (ho : (σ.th t).outer = .tryRecv ∨ (σ.th t).outer = .recv ∨ (σ.th t).outer = .poll false)
     (ha : (σ.th t).pc.inAttempt = true) :
